@@ -412,7 +412,7 @@ def rule_spans(ck):
     where = "parser::code"
     n = 0
     # statements whose operand is the rest of the line (no respelling possible, so not part of the C10 corpus)
-    texts = [_respell(pieces, "plain") for pieces in CORPUS] + [".error stop here\n", "lab: .error\n"]
+    texts = [_respell(pieces, "plain") for pieces in CORPUS] + [".error stop here\n", "lab: .error\n", "x = a + b + c\n", "x = a * b + c - d\n", ".word 6 * 2 / 3, a - b - c\n", "mov #a + b + c, r0\n"]
     for text in texts:
         r, pos, errs, raised = run_parser(I, "code", text)
         if raised or errs or r is None:
@@ -440,6 +440,14 @@ def rule_spans(ck):
                 ck.violation(where, f"in {text.strip()!r} the {t.cls.name} token spans {pa}..{pb} (text length {len(text)}): a span starts before it ends and lies inside the text - "
                                     "a diagnostic for this token underlines nothing, or the wrong place", construct=cons)
                 continue
+            # a node's span covers its operands: 'a + b + c' starts where 'a' starts (a diagnostic about the sum underlines all of it)
+            for role in ("lhs", "rhs"):         # postfix and prefix nodes ('(r2)+', '-(sp)') span their operator character only: the code's convention, not judged
+                ch = f.get(role)
+                if isinstance(ch, Rec) and isinstance(ch.fields.get("ctx_start"), Rec) and isinstance(ch.fields.get("ctx_end"), Rec):
+                    ca, cb = ch.fields["ctx_start"].fields.get("pos"), ch.fields["ctx_end"].fields.get("pos")
+                    if isinstance(ca, int) and isinstance(cb, int) and not (pa <= ca and cb <= pb):
+                        ck.violation(where, f"in {text.strip()!r} the {t.cls.name} node spans {pa}..{pb} ({text[pa:pb]!r}) but its {role} spans {ca}..{cb} ({text[ca:cb]!r}): "
+                                            "a node's span has to cover its operands", construct="operator node span covers its operands")
             inner = text[pa:pb]
             # Token.text() - what the branch encoder inspects and what 'you wrote ...' hints quote - is the text between the two positions
             if t.cls.lookup("text")[0] is not None and "text" not in f:
